@@ -36,15 +36,32 @@ theorem owned_sender {q : St} (h : Owned q) (i : Nat) (sp : Bool) (v : Nat) : Ow
     rw [e]
     cases pc with
     | idle =>
-      intro k hk hs
-      obtain ⟨j, sl, hh⟩ := h k hk hs
-      have hj : j ≠ i := by rintro rfl; rw [hpc] at hh; rcases hh with hh | hh <;> cases hh
-      exact ⟨j, sl, keep _ _ rfl k j sl hj hh⟩
-    | failed =>
-      intro k hk hs
-      obtain ⟨j, sl, hh⟩ := h k hk hs
-      have hj : j ≠ i := by rintro rfl; rw [hpc] at hh; rcases hh with hh | hh <;> cases hh
-      exact ⟨j, sl, keep _ _ rfl k j sl hj hh⟩
+      simp only [stepSender]
+      split
+      · intro k hk hs
+        obtain ⟨j, sl, hh⟩ := h k hk hs
+        have hj : j ≠ i := by rintro rfl; rw [hpc] at hh; rcases hh with hh | hh <;> cases hh
+        exact ⟨j, sl, keep _ _ rfl k j sl hj hh⟩
+      · intro k hk hs
+        obtain ⟨j, sl, hh⟩ := h k hk hs
+        have hj : j ≠ i := by rintro rfl; rw [hpc] at hh; rcases hh with hh | hh <;> cases hh
+        exact ⟨j, sl, keep _ _ rfl k j sl hj hh⟩
+    | loadedFree w0 =>
+      simp only [stepSender]
+      split
+      · intro k hk hs
+        obtain ⟨j, sl, hh⟩ := h k hk hs
+        have hj : j ≠ i := by rintro rfl; rw [hpc] at hh; rcases hh with hh | hh <;> cases hh
+        exact ⟨j, sl, keep _ _ rfl k j sl hj hh⟩
+      · split
+        · intro k hk hs
+          obtain ⟨j, sl, hh⟩ := h k hk hs
+          have hj : j ≠ i := by rintro rfl; rw [hpc] at hh; rcases hh with hh | hh <;> cases hh
+          exact ⟨j, sl, keep _ _ rfl k j sl hj hh⟩
+        · intro k hk hs
+          obtain ⟨j, sl, hh⟩ := h k hk hs
+          have hj : j ≠ i := by rintro rfl; rw [hpc] at hh; rcases hh with hh | hh <;> cases hh
+          exact ⟨j, sl, keep _ _ rfl k j sl hj hh⟩
     | gotPerm =>
       intro k hk hs
       obtain ⟨j, sl, hh⟩ := h k hk hs
